@@ -9,6 +9,8 @@ import RosedVerif.Model.InstAFacts
 import RosedVerif.Model.AlignRefine
 import RosedVerif.Model.BridgeAlignCRLF
 import RosedVerif.Model.OpsStructure
+import RosedVerif.Model.BridgeEditorOps
+import RosedVerif.Model.BridgeEditorParas
 namespace RosedVerif.Props
 open RosedVerif
 
@@ -132,5 +134,36 @@ theorem C12_line_count_justifyLast {α : Type} [DecidableEq α] (cx : Ctx α) (e
         (splitOn r.text (o.withDefaults cx).lineSep).getD i [] = J ((inLines cx ed o).getD i []) ∧
         (splitOn ed.text (o.withDefaults cx).lineSep).getD i [] = (inLines cx ed o).getD i [] :=
   justifyOpts_all_lines cx ed width o J hpp hjl hJ hsep hu hfree
+
+open RosedVerif.BridgeOps RosedVerif.BridgeEditorOps RosedVerif.BridgeEditorParas RosedVerif.OpsStructure
+
+/-- the PUBLIC operation JustifyOpts on code points, non-paragraph mode, JustifyLastLine on or off, any editor (sub-editors included): the code-point run of the model (LinesTo(-1), per-line JustifyLine, Commit — byte offsets included) is the flattening of the cluster run -/
+theorem C12_justifyOpts_code_points {V : List (List Int)} (hV : VocabStable V = true)
+    (hsp : [0x20] ∈ V)
+    (hspTail : ∀ t ∈ V, (0x20 : Int) ∉ t.tail)
+    (ed : Editor (List Int))
+    (ht : ∀ t ∈ ed.text, t ∈ V)
+    (width : Int)
+    (o : Options (List Int))
+    (hpp : o.preservePara = false)
+    (hS : GoodSep V (o.withDefaults cxB).lineSep) :
+    Editor.justifyOpts cxA ed.flat width o.flat =
+      (Editor.justifyOpts cxB ed width o).map Editor.flat :=
+  justifyOpts_bridge hV hsp hspTail ed ht width o hpp hS
+
+/-- the same in paragraph mode (vocabulary also contains the placeholder `A` the code pads paragraphs with) -/
+theorem C12_justifyOpts_code_points_para {V : List (List Int)} (hV : VocabStable V = true)
+    (hsp : [0x20] ∈ V)
+    (hA : [0x41] ∈ V)
+    (hspTail : ∀ t ∈ V, (0x20 : Int) ∉ t.tail)
+    (ed : Editor (List Int))
+    (ht : ∀ t ∈ ed.text, t ∈ V)
+    (width : Int)
+    (o : Options (List Int))
+    (hpp : o.preservePara = true)
+    (hG : GoodPara V (o.withDefaults cxB).lineSep (o.withDefaults cxB).paraSep) :
+    Editor.justifyOpts cxA ed.flat width o.flat =
+      (Editor.justifyOpts cxB ed width o).map Editor.flat :=
+  justifyOpts_bridge_para hV hsp hA hspTail ed ht width o hpp hG
 
 end RosedVerif.Props
